@@ -438,9 +438,12 @@ def run_cli(ctx, quick):
         N, F = parse_dimacs(out0)
         n1, F1 = parse_dimacs(out1)
         if name in ('xorcomp', 'majcomp'):
+            # the graph named on the command line, built with the library (graph constructions are C15's business)
+            from cnfgen.graphs import bipartite_shift
             if targs[0] == 'shift':
                 L, R, pat = targs[1], targs[2], targs[3:]
-                adj = [sorted(((u - 1 + p - 1) % R) + 1 for p in pat) for u in range(1, L + 1)]
+                B = bipartite_shift(L, R, sorted(pat))
+                adj = [list(B.right_neighbors(u)) for u in range(1, L + 1)]
             else:
                 L, R = targs[1], targs[2]
                 adj = [list(range(1, R + 1)) for _ in range(L)]
